@@ -6,6 +6,12 @@
  * Protocol: one scenario per stdin line, one JSON answer line per scenario.
  *   hash <alg> <align> <msg-hex|-> <chunk-lengths "a,b,c"|->
  *   hmac <alg> <align> <key-hex|-> <msg-hex|-> <chunk-lengths|->
+ *   resume <alg> <align> <H-hex> <cnt-hex> <sigma-hex|-> <buf-hex|-> <data-hex|->
+ *       a position in the middle of a (possibly astronomically long) stream: after *_init the context is PRIMED with
+ *       the chaining value H (all words, written like a digest: MD5 little-endian words, SHA big-endian words,
+ *       Streebog the 64 octets of h), the byte counter cnt (hex number: md5/sha1 64 bit -> ctx->count, sha2 128 bit
+ *       -> count_hi:count; Streebog: the 64 octets of N = ctx->counter, and sigma = ctx->sigma) and the buffered
+ *       bytes buf (Streebog: buffer_usage = their number); then update(data) and final run.  Answer: digest, "zero".
  * The message is placed at (64-byte aligned base + align) so every chunk pointer has a known alignment; the chunk
  * lengths must sum to the message length.  After every update call the public context is read:
  *   count = bytes absorbed so far (ctx->count; GOST: counter/8 + buffer_usage), buf = the bytes waiting in ctx->buffer.
@@ -212,14 +218,84 @@ static uint8_t *aligned_copy(const uint8_t *src, size_t n, size_t align, void **
 	return (uint8_t*)b + align;
 }
 
+/* big-endian helpers for the priming only (the library is never asked to convert anything here) */
+static uint64_t be_num(const uint8_t *p, size_t n) {
+	uint64_t v = 0;
+	for (size_t i = 0; i < n; i++) v = (v << 8) | p[i];
+	return v;
+}
+static void do_resume(const alg_t *a, size_t align, const char *hh, const char *ch, const char *sh, const char *bh, const char *dh) {
+	size_t hn = 0, cn = 0, sn = 0, bn = 0, dn = 0;
+	uint8_t *H = vh_unhex(hh, &hn), *cnt = vh_unhex(ch, &cn), *sig = vh_unhex(sh, &sn), *buf = vh_unhex(bh, &bn);
+	uint8_t *data0 = vh_unhex(dh, &dn);
+	void *dbase = NULL, *cbase = NULL;
+	uint8_t *data = aligned_copy(data0, dn, align, &dbase);
+	if (posix_memalign(&cbase, 64, a->ctx_size)) abort();
+	memset(cbase, 0xEE, a->ctx_size);
+	any_ctx_t *ctx = cbase;
+	uint8_t *dg = vh_buf(a->hsize);
+	int ok = (bn < a->block);
+	a_init(a, ctx);
+	switch (a->fam) {
+	case 0:
+		ok = ok && hn == 16 && cn == 8;
+		if (ok) {
+			for (size_t i = 0; i < 4; i++) ctx->md5.hash[i] = (uint32_t)H[4*i] | ((uint32_t)H[4*i+1] << 8) | ((uint32_t)H[4*i+2] << 16) | ((uint32_t)H[4*i+3] << 24);
+			ctx->md5.count = be_num(cnt, 8);
+			memcpy(ctx->md5.buffer, buf, bn);
+		}
+		break;
+	case 1:
+		ok = ok && hn == 20 && cn == 8;
+		if (ok) {
+			for (size_t i = 0; i < 5; i++) ctx->sha1.hash[i] = (uint32_t)be_num(H + 4*i, 4);
+			ctx->sha1.count = be_num(cnt, 8);
+			memcpy(ctx->sha1.buffer, buf, bn);
+		}
+		break;
+	case 2:
+		ok = ok && hn == (64 == a->block ? 32u : 64u) && cn == 16;		/* 8 words of 4 (block 64) or 8 (block 128) octets */
+		if (ok) {
+			if (64 == a->block) for (size_t i = 0; i < 8; i++) ((uint32_t*)ctx->sha2.hash)[i] = (uint32_t)be_num(H + 4*i, 4);
+			else for (size_t i = 0; i < 8; i++) ctx->sha2.hash[i] = be_num(H + 8*i, 8);
+			ctx->sha2.count_hi = be_num(cnt, 8);
+			ctx->sha2.count = be_num(cnt + 8, 8);
+			memcpy(ctx->sha2.buffer, buf, bn);
+		}
+		break;
+	default:
+		ok = ok && hn == 64 && cn == 64 && sn == 64;
+		if (ok) {
+			memcpy(ctx->gost.hash, H, 64);
+			memcpy(ctx->gost.counter, cnt, 64);
+			memcpy(ctx->gost.sigma, sig, 64);
+			memcpy(ctx->gost.buffer, buf, bn);
+			ctx->gost.buffer_usage = bn;
+		}
+		break;
+	}
+	if (!ok) {
+		printf("{\"error\":\"resume-args\"}\n");
+	} else {
+		printf("{\"path\":\"%s\",", a_path(a, ctx));
+		a_update(a, ctx, data, dn);
+		printf("\"count\":%" PRIu64 ",", a_count(a, ctx));
+		a_final(a, ctx, dg);
+		jhex("dg", dg, a->hsize);
+		printf(",\"zero\":%d,\"consumed\":%zu}\n", all_zero(ctx, a->ctx_size), dn);
+	}
+	vh_buf_free(dg); free(cbase); free(dbase);
+	free(H); free(cnt); free(sig); free(buf); free(data0);
+}
+
 int main(void) {
 	char *line = NULL; size_t cap = 0;
 	vh_install_fault_handler();
 	while (getline(&line, &cap, stdin) > 0) {
-		char op[16], an[16], *tok[6]; int nt = 0;
+		char op[16], an[16], *tok[8]; int nt = 0;
 		char *save = NULL;
 		char *copy = strdup(line);
-		for (char *t = strtok_r(copy, " \n", &save); t && nt < 6; t = strtok_r(NULL, " \n", &save)) tok[nt++] = t;
+		for (char *t = strtok_r(copy, " \n", &save); t && nt < 8; t = strtok_r(NULL, " \n", &save)) tok[nt++] = t;
 		if (nt < 5) { free(copy); continue; }
 		strncpy(op, tok[0], 15); op[15] = 0; strncpy(an, tok[1], 15); an[15] = 0;
 		int is_hmac = !strcmp(op, "hmac");
@@ -229,6 +305,13 @@ int main(void) {
 		if (!a) { printf("{\"error\":\"alg\"}\n"); free(copy); continue; }
 		snprintf(vh_case_tag, sizeof(vh_case_tag), "%.200s", line);
 		alarm(60);
+		if (!strcmp(op, "resume")) {
+			if (nt < 8) { printf("{\"error\":\"args\"}\n"); free(copy); continue; }
+			do_resume(a, (size_t)atoi(tok[2]) & 63, tok[3], tok[4], tok[5], tok[6], tok[7]);
+			alarm(0);
+			free(copy);
+			continue;
+		}
 		size_t align = (size_t)atoi(tok[2]) & 63, kn = 0, mn = 0;
 		uint8_t *key = NULL, *msg0;
 		void *kbase = NULL, *mbase = NULL;
